@@ -1,7 +1,7 @@
 (* C17 — receive gating by role, and protocol-version auto-detection.  Statements only; proofs are
    in Conn/RecvGate.v.  Nothing else may be added to this file. *)
 From MQ Require Import Base.Prelude Framing.Framing Conn.Types Conn.ConnRecord Conn.Step Conn.Run
-                       Corr.ConnTrace Spec.MqttRules Conn.RecvGate.
+                       Corr.ConnTrace Spec.MqttRules Mon.MonGate Conn.SendGate Conn.RecvGate Conn.GateDual.
 
 (* For EVERY state with a determined version: a complete frame of a kind the MQTT rule table
    (Spec/MqttRules.v) never lets the peer of this role send yields exactly one error event and the
@@ -41,6 +41,24 @@ Theorem C17_undetermined_equiv : forall g v bytes pr hdr body pb' rest h,
 Proof. exact undetermined_equiv. Qed.
 Print Assumptions C17_undetermined_equiv.
 
+(* THE PAIR: the receive gate is dual to the send gate (Conn/GateDual.v).  Whatever an endpoint in the client role passes
+   to the transport, the receive gate of a server-role (or any-role) endpoint of the same protocol version lets through,
+   and vice versa — two library endpoints never report a protocol error about each other because of the KIND of packet
+   the other one sent; the run-time receive test accepts every kind the rule table lets the peer originate *)
+Theorem C17_rule_is_can_receive : forall g c t,
+  c_version c <> VUndet -> may_receive (g_role g) (c_version c) t = true -> can_receive g c t = true.
+Proof. exact rule_is_can_receive. Qed.
+Print Assumptions C17_rule_is_can_receive.
+
+Theorem C17_sent_passes_peer_gate : forall gs gr cs cr p,
+  pkt_wf p = true -> opposite (g_role gs) (g_role gr) -> c_version cr = c_version cs -> c_version cs <> VUndet ->
+  match do_send gs cs p with
+  | Ok (_, e) => sends e <> [] -> can_receive gr cr (k_type p) = true
+  | Panic _ => True
+  end.
+Proof. exact sent_passes_peer_gate. Qed.
+Print Assumptions C17_sent_passes_peer_gate.
+
 (* non-vacuity: a v3.1.1 client that receives PINGREQ (type 12); a connected client that receives
    a second CONNACK *)
 Example C17_nonvacuous :
@@ -50,3 +68,17 @@ Example C17_nonvacuous :
   process_recv_packet g c 192 [] (PROk (pkt0 12 V311)) = Ok (c, [EError E_PROTOCOL]) /\
   process_recv_packet g c 32 [0; 0] (PROk (pkt0 2 V311)) = Ok (c, [EClose; EError E_PROTOCOL]).
 Proof. vm_compute. repeat split. Qed.
+
+(* the duality theorem is not vacuous: a connected v5.0 client sends PINGREQ (it is passed to the transport), and a
+   server lets kind 12 through its receive gate; a server sending PINGREQ is refused at its own send gate *)
+Example C17_dual_nonvacuous :
+  let gs := mkCfg RClient 65535 2 in
+  let gr := mkCfg RServer 65535 2 in
+  let cs := set_status (conn_new gs V50) Connected in
+  let cr := set_status (conn_new gr V50) Connected in
+  let p := pkt0 12 V50 in
+  pkt_wf p = true /\ opposite (g_role gs) (g_role gr) /\
+  match do_send gs cs p with Ok (_, e) => sends e = [p] | Panic _ => False end /\
+  can_receive gr cr 12 = true /\
+  match do_send gr cr p with Ok (_, e) => sends e = [] | Panic _ => False end.
+Proof. vm_compute. repeat split; try reflexivity. left. split; [reflexivity|discriminate]. Qed.
